@@ -109,3 +109,8 @@ CHECKS["C18"] = {"pkg": "wallet", "shards": 12, "fuzz": [{"target": "FuzzC18_Dec
     "technique": "property-based testing (rapid): structured ciphertext mutation for both ciphers with a no-panic / authenticity oracle; lock/serialise/unlock round trips of every lockable wallet type with a secret-absence oracle; native fuzzing of both Decrypt functions in thorough",
     "text": "Generated ciphertexts (valid, bit-flipped, truncated, spliced, re-checksummed, metadata length prefix and JSON fields patched to boundary values, random, empty) are decrypted with the right and a wrong password: the result must be the plaintext or an error, never a panic, and never different data. Wallets of each lockable type are locked with generated passwords: the serialised form must not contain any seed, passphrase or secret key, unlocking with the same password must restore the identical wallet, any other password must be refused.",
     "note": "scrypt parameters inside generated metadata are capped (N<=2^14, r<=8, p<=2) to protect the harness; wallets use the fast cipher variants (sha256-xor, scrypt N=2^15)"}
+
+CHECKS["C17"] = {"pkg": "wallet", "shards": 12,
+    "technique": "metamorphic stateful property testing (rapid state machine per wallet type): batch-split generation, scanning, reload, clone and lock/unlock must equal one-shot generation; independent re-derivation with the reference BIP39/32/44 and the documented deterministic iterator",
+    "text": "Generated histories of generate / scan (with generated activity patterns) / serialise-load / clone / lock-unlock on deterministic, bip44 (both chains), xpub and collection wallets; after every step the entries must equal the first addresses of a fresh wallet of the same seed that generates everything at once, every entry must be internally consistent (address of public key, public key of secret key), the watch-only wallet must match the seed wallet, and the first addresses are re-derived independently at the end.",
+    "note": "reference: harness/internal/ref/{bip,curve,rules}; lock/unlock uses sha256-xor for speed; collection wallets (no seed) are checked for consistency and invariance only"}
